@@ -80,6 +80,10 @@ func c09Alphabet(nsenders int) []appx.Op {
 			ops = append(ops, op("result", s, e, 1), op("result", s, e, 0))
 		}
 		ops = append(ops, op("commit", s, 0, 1), op("eval", s, 0, 0), op("accuse", s, 0, 0), op("apology", s, 0, 0))
+		if s == 1 {
+			// several accused, and a list that names one keyper twice
+			ops = append(ops, op("accuse", s, 0, 1), op("accuse", s, 0, 2))
+		}
 	}
 	ops = append(ops, endblock)
 	return ops
